@@ -364,6 +364,12 @@ impl Bundle {
             }
         }
 
+        // If only the other bundle has been through the IO Finalizer, keep its `bsk`: the
+        // result of a merge must not depend on which side carried the field.
+        if self.bsk.is_none() {
+            self.bsk = bsk;
+        }
+
         if !merge_optional(&mut self.anchor, anchor) {
             return None;
         }
